@@ -27,6 +27,9 @@ import (
 	"verif/wire"
 )
 
+// otherKindExt is an extension registered with a non-snapshot kind by the receiver scenarios.
+const otherKindExt = "verifdelta.gz"
+
 type c15Params struct {
 	Part  string `json:"part"` // roundtrip | order | parse | sanitise | receiver
 	Seed  uint64 `json:"seed"`
@@ -309,7 +312,7 @@ func runC15(c runner.Case, env *runner.Env) (res runner.Result) {
 					// byte order no longer follows the parsed timestamps)
 					// everything after the FIRST dot is the extension and only "pb.gz" is registered: stray files such as
 					// ...GX.bak.pb.gz, ...GX.pb.gz.tmp, db.old__... are not snapshots
-					if i := strings.Index(s, "."); i < 0 || s[i+1:] != "pb.gz" {
+					if i := strings.Index(s, "."); i < 0 || (s[i+1:] != "pb.gz" && s[i+1:] != otherKindExt) {
 						res.Violate("non-snapshot-file-accepted", fmt.Sprintf("ParseName accepted %q, whose extension (everything after the first dot) is not a registered one", s), map[string]any{"input": s})
 					}
 					canon := ni
@@ -353,6 +356,13 @@ func runC15(c runner.Case, env *runner.Env) (res runner.Result) {
 			_, _ = lmdbx.Update(e, func(txn *lmdb.Txn) error { return lmdbx.Put(txn, "d", 0, []byte("k"), []byte("v")) })
 			b := bucket.New()
 			conf := lsx.FastConfig(inst)
+			if i%2 == 1 {
+				// no instance configured: the name comes from the host name (dots, underscores... are common there)
+				conf.Instance = ""
+				old := syncer.VerifSetHostname(inst)
+				defer syncer.VerifSetHostname(old)
+				res.Count("instances_from_hostname", 1)
+			}
 			s, err := syncer.New("db", e, b, conf, config.LMDB{SchemaTracksChanges: false}, syncer.Options{})
 			if err != nil {
 				e.Close()
@@ -483,6 +493,9 @@ func runC15(c runner.Case, env *runner.Env) (res runner.Result) {
 		}
 		res.Sample = map[string]any{"case": c.ID, "scenarios": p.Count}
 	case "receiver":
+		// a second extension is registered with a kind that is not "snapshot" (as an extended build does for deltas):
+		// such files parse, but are never snapshots
+		snapshot.RegisterExtension(otherKindExt, "verif-delta")
 		for i := 0; i < p.Count; i++ {
 			db := "db"
 			sc := recvx.Scenario{DB: db, Own: "self", DLimit: 2, ZLimit: 3, Consumer: "fast", Bound: 1500}
@@ -501,6 +514,7 @@ func runC15(c runner.Case, env *runner.Env) (res runner.Result) {
 			sc.Foreign = append(sc.Foreign, "db", "db__", "db__x", "db__i0__"+ts+".pb.gz", "db__i0__"+ts+"__GX.tmp", "db__i0__"+ts+"__GX", "db__i0__2030__GX.pb.gz",
 				"db__i0__"+ts+"__GX.pb.gz.tmp", "db__i0__20300101-000000.000000000__GX.pb.gz", "README", "db__i0__"+ts[:24]+"__GX.pb.gz", "db.pb.gz", "db__i0__99999999-999999-999999999__GX.pb.gz",
 				// a stray byte where the seconds/nanoseconds separator belongs: sorts after every real name of that second
+				"db__i0__"+ts+"__GX."+otherKindExt, "db__i1__"+ts+"__GX."+otherKindExt, "db__onlydelta__"+ts+"__GX."+otherKindExt,
 				"db__i0__"+ts+"__GX.bak.pb.gz", "db__i0__"+ts+"__GX.pb.gz.pb.gz", "db__i0.1__"+ts+"__GX.pb.gz", "db__i0__"+ts+"__GX.tmp.pb.gz",
 				"db__i0__20300101-000000_000000000__GX.pb.gz", "db__i0__20300101-000000x000000000__GX.pb.gz", "db__i0__20300101-0000000000000000__GX.pb.gz", "db__i0__20300101_000000-000000000__GX.pb.gz")
 			rng.Shuffle(r, sc.Foreign)
